@@ -348,8 +348,8 @@ def boundary_occurs(boundary, specs):
     (as text, or as bytes once the string is UTF-8 encoded and the boundary latin-1 encoded)"""
     bb = boundary.encode("latin-1", "replace")
     for s in specs:
-        v = spec_val = s["val"]
-        if bb in value_bytes(spec_val) or (v[0] == "s" and boundary in v[1]):
+        v = s["val"]
+        if bb in value_bytes(v) or (v[0] == "s" and boundary in v[1]):
             return True
         for t in supplied_strings(s):
             if boundary in t or bb in t.encode("utf-8"):
@@ -455,7 +455,7 @@ def check_output(case, body, ctype, explicit):
                     elif pd != cd[1]:
                         wrong = sorted(p.decode() for p in set(pd) | set(cd[1]) if pd.get(p) != cd[1].get(p))
                         bad("disposition", {"params": pd}, {"params": cd[1]}, shape=shp, reason="parameters",
-                            wrong=wrong, needs=_needs(*[spec.get({"name": "name", "filename": "fn"}.get(w, "")) for w in wrong]))
+                            wrong=wrong, needs=_needs(*[spec.get("fn" if w == "filename" else w) for w in wrong if w in ("name", "filename")]))
         if others != raw:
             diff = sorted({n.decode() for n, _ in set(others) ^ set(raw)})
             clause = "part-content-type" if diff == ["content-type"] else "part-headers"
@@ -797,6 +797,9 @@ def fam_f5(tuples, acc, local):
         run_case(_one(specs, container="tuple", boundary=None), acc, cnt)
         if dict_ok(specs):
             run_case(_one(specs, container="dict"), acc, cnt)
+        if grade == "fine":
+            continue  # routes are exercised on the coarse and medium grades
+        if dict_ok(specs):
             run_case(_one(specs, container="dict", boundary=None, route="request", hdrs="none"), acc, cnt)
         for route, b, hk in (("reb", EXPLICIT, "none"), ("reb", None, "x"), ("reb", EXPLICIT, "uct"), ("request", EXPLICIT, "uct")):
             run_case(_one(specs, container="list", boundary=b, route=route, hdrs=hk), acc, cnt)
@@ -1000,7 +1003,7 @@ def run(ctx):
     }
     if not thorough:
         expect["F2b"] = (len(names3) - len(names2)) * len(short) * len(FILE_SHAPES) * 2
-    floor = {"F4": n_pair * n_pair, "F5": len(t5) * 6}
+    floor = {"F4": n_pair * n_pair, "F5": sum(2 if g == "fine" else 6 for g, _ in t5)}
     if any(c["cases:" + k] != v for k, v in expect.items()) or any(c["cases:" + k] < v for k, v in floor.items()):
         raise HarnessError("enumeration incomplete: %r vs exactly %r, at least %r" % (
             {k: c["cases:" + k] for k in list(expect) + list(floor)}, expect, floor))
@@ -1045,22 +1048,21 @@ def run(ctx):
         (len(esc_name) == 7 and len(esc_fn) == 7, "not every combination of the three escaping rules tested in name and filename: %r %r" % (esc_name, esc_fn)),
         (checked > 100000, "too few checked cases"),
         (c["status:filtered"] > 100, "precondition filter never fired"),
+        (all(c["boundary:%s:filtered" % m] > 0 for m in ("gen", "xyz", "hostile")), "filter not live in every boundary mode"),
+        (c["boundary:gen:ok"] > 1000 and c["boundary:hostile:ok"] > 1000 and c["boundary:xyz:ok"] > 1000, "boundary modes not all exercised"),
         (c["generated:produced"] > 1000 and c["generated:pin-consulted"] == c["generated:produced"], "os.urandom pin not consulted for every generated boundary"),
         (c["container:dict"] > 1000 and c["container:list"] > 1000 and c["container:tuple"] > 100, "containers not all exercised"),
         (c["route:reb"] > 1000 and c["route:request"] > 1000, "request_encode_body routes not exercised"),
+        (all(c["fields:%d" % k] > 0 for k in range(5)), "not every arity 0..4 exercised"),
+        (kc >= 6 and km > kc and kf > km, "too few behaviour classes: %d/%d/%d" % (kc, km, kf)),
+        (len(acc.outcomes) >= 50, "too few outcome classes: %d" % len(acc.outcomes)),
         (measured >= 2, "no non-trivial cases"),
     ]
-    if not acc.viol:
-        # guards on what was OBSERVED only make sense for a silent run (a run that reports
-        # violations is not vacuous, and these would mask the report as a harness error)
-        guards += [
-            (all(c["boundary:%s:filtered" % m] > 0 for m in ("gen", "xyz", "hostile")), "filter not live in every boundary mode"),
-            (c["boundary:gen:ok"] > 1000 and c["boundary:hostile:ok"] > 1000 and c["boundary:xyz:ok"] > 1000, "boundary modes not all exercised"),
-            (all(c["fields:%d" % k] > 0 for k in range(5)), "not every arity 0..4 exercised"),
-            (kc >= 6 and km > kc and kf > km, "too few behaviour classes: %d/%d/%d" % (kc, km, kf)),
-            (c["either:user-content-type-kept"] + c["status:ok"] > 0, "no outcome"),
-            (len(acc.outcomes) >= 50, "too few outcome classes: %d" % len(acc.outcomes)),
-        ]
+    if acc.viol:
+        # Vacuity guards protect a SILENT run.  Several of them depend on what was observed
+        # (the behaviour classes of F5 are computed from cases that passed), so on a tree
+        # that breaks the property they would turn the report into a harness error.
+        guards = []
     ctx.finish(
         "exploration", acc, cov,
         assumptions=[
